@@ -13,14 +13,21 @@ cycle of the cell data of a table:
   * `table_resave_idempotent`, `table_resave_stable` — the layers composed end to end
     (Model/TablePipeline.lean, C01 `table_roundtrip`): open → save → open → save → open … of a
     whole table returns, every time, the same class / payload / ids / text at every position.
-Everything else in the statement (formulas, formatted values, bullets, merge ranges, sheet and
-table order, protobuf objects) is reached only by the whole-document dump comparison in
-harness/checks/c02.py, which is exploration and labelled so.
+  * `document_resave_identity`, `document_resave_stable`, `opened_after_load` — the WHOLE document
+    (Model/Document.lean: DocTree + per table TablePipeline grid, Merge map, formula / format / rich-text
+    lists; `saveDoc` = `Document.save`, `loadDoc` = `Document(path)`, `dump` = what
+    harness/checks/c02.py `dump()` reads), by composition of the component theorems: sheets and tables in
+    order, per cell class, value, formula text, formatted value, rich-text token, merge state.
+Glue that is assumed, not proved (stated in PARTIAL of the check): rich text (bullets / hyperlinks / the text of
+a rich cell) is an opaque token per rich-text id; the interpretation of payload bytes as Python values and the
+A1 text of a reference node are parameters of `dump` (third party / C09); style ids travel in the cell record
+but `dump` does not read styles.
 -/
 import NumbersModel.Props.C04
 import NumbersModel.Props.C01
 import NumbersModel.Lemmas.StringTable
 import NumbersModel.Lemmas.TablePipeline
+import NumbersModel.Lemmas.DocumentDemo
 namespace NumbersModel.Props.C02
 open NumbersModel NumbersModel.CellRecord NumbersModel.StringTable
 
@@ -182,5 +189,122 @@ def demoGrid : List (List TablePipeline.TCell) :=
 example : (resaveN (fun r c => r == 0 && c == 1) 2 demoGrid).map
       (fun g => g.map (fun r => r.map (TablePipeline.coreL ∘ TablePipeline.viewT)))
     = .ok (demoGrid.map (fun r => r.map (TablePipeline.coreL ∘ TablePipeline.viewT))) := by decide +kernel
+
+/-! ### the whole document (composition; Model/Document.lean) -/
+section document
+open NumbersModel.Document
+
+/-- **`Document(path)` establishes `Opened`** (for a document that was `Opened` and `Writable` before the save): the save
+    succeeds, the reopen succeeds, and the reopened document is again `Opened` and `Writable` — so a second cycle needs no
+    extra hypothesis.  Which component hypothesis each part of `Opened` supplies:
+    `TreeOK` → DocTree `tableIds_perm` / `getObj_perm` / `serialise_perm` (C19 `order_after_reload`);
+    `LiveOpened.ne / rect / rows / cells` + `Writable` → C01 `table_roundtrip` (`load_save_rel`, `reread_valid`);
+    `LiveOpened.agrees` → `MergeAgrees`; `LiveOpened.merge` (`MergeOK`) → C12 `get_load_pack` (`open_eq_reloaded`). -/
+theorem opened_after_load (d : Doc) (hO : Opened d) (hW : Writable d) :
+    ∃ s d', saveDoc d = .ok s ∧ loadDoc s = .ok d' ∧ Opened d' ∧ Writable d' := by
+  obtain ⟨s, d', h1, h2, h3, h4, _⟩ := doc_cycle d hO hW
+  exact ⟨s, d', h1, h2, h3, h4⟩
+
+/-- **re-saving an unmodified document preserves everything the library reads**: open → save → open shows the same sheets
+    in the same order, per sheet the same tables in the same order, and per table (pivot tables: the name only) the same
+    dimensions, merge ranges and, cell by cell, the same class, value, formula text, formatted value, rich-text token and
+    merge flag / placeholder range — for every interpretation `env` of the payload bytes and reference nodes. -/
+theorem document_resave_identity (d : Doc) (hO : Opened d) (hW : Writable d) (env : Env) :
+    resaveDump env d = dump env d := by
+  obtain ⟨s, d', h1, h2, _, _, h5⟩ := doc_cycle d hO hW
+  simp only [resaveDump, h1, h2, bind, Except.bind, h5 env]
+
+/-- two cycles: open → save → open → save → open → dump -/
+def resaveDump2 (env : Env) (d : Doc) : PyM Observation := do
+  let s ← saveDoc d
+  let d' ← loadDoc s
+  resaveDump env d'
+
+/-- **a second save/open cycle changes nothing further** -/
+theorem document_resave_stable (d : Doc) (hO : Opened d) (hW : Writable d) (env : Env) :
+    resaveDump2 env d = resaveDump env d := by
+  obtain ⟨s, d', h1, h2, h3, h4, h5⟩ := doc_cycle d hO hW
+  simp only [resaveDump2, h1, h2, bind, Except.bind]
+  rw [document_resave_identity d' h3 h4 env]
+  simp only [resaveDump, h1, h2, bind, Except.bind]
+
+/-- any number of cycles -/
+def resaveDumpN (env : Env) : Nat → Doc → PyM Observation
+  | 0, d => dump env d
+  | n + 1, d => do
+    let s ← saveDoc d
+    let d' ← loadDoc s
+    resaveDumpN env n d'
+
+theorem document_resave_any_number (env : Env) (n : Nat) : ∀ (d : Doc), Opened d → Writable d →
+    resaveDumpN env n d = dump env d := by
+  induction n with
+  | zero => intro d _ _; rfl
+  | succ n ih =>
+    intro d hO hW
+    obtain ⟨s, d', h1, h2, h3, h4, h5⟩ := doc_cycle d hO hW
+    simp only [resaveDumpN, h1, h2, bind, Except.bind]
+    rw [ih d' h3 h4, h5 env]
+
+/-- the table part on its own: one table through `Document.save` / `Table.__init__` is observed the same and is again a
+    table a save can take (pivot tables: left alone by the save) -/
+theorem table_state_resave (t : TableSt) (hO : TableOpened t) (hW : TableWritable t) :
+    ∃ s t', saveTableSt t = .ok s ∧ loadTableSt t.pivot.isSome s = .ok t' ∧ TableOpened t' ∧ TableWritable t' ∧
+      ∀ env tid, obsTable env tid t' = obsTable env tid t := by
+  obtain ⟨s, t', h1, h2, h3, h4, _, h6⟩ := table_cycle t hO hW
+  exact ⟨s, t', h1, h2, h3, h4, h6⟩
+
+/-- the merge part on its own: the map read back from the packed ranges reads the same at every cell and is again `MergeOK` -/
+theorem merge_state_resave (m : Merge.MMap) (h : MergeOK m) :
+    ∃ packed, Merge.packRanges (Merge.anchorsOf m) = .ok packed ∧
+      (∀ k, (Merge.loadRanges packed).get k = m.get k) ∧ MergeOK (Merge.loadRanges packed) := by
+  obtain ⟨packed, hp, hget⟩ := merge_cycle_get m h
+  exact ⟨packed, hp, hget, mergeOK_of_get m _ h (nodup_loadRanges packed) hget⟩
+
+/-! #### non-vacuity: two sheets, three tables, a merge, a shared formula, a currency format, a string cell -/
+
+/-- **the hypotheses are satisfiable** (Lemmas/DocumentDemo.lean): the demo document — two sheets, three tables, a merge, a
+    shared formula, a currency format, string cells, a rich cell, a date; store order ≠ file order — is `Opened` and
+    `Writable` … -/
+theorem hypotheses_satisfiable : Opened demoDoc ∧ Writable demoDoc := demo_opened
+/-- … so the theorems apply to it -/
+example : resaveDump demoEnv demoDoc = dump demoEnv demoDoc :=
+  document_resave_identity demoDoc demo_opened.1 demo_opened.2 demoEnv
+
+/-- the dump of the demo document is a value (no exception) … -/
+example : (dump demoEnv demoDoc).isOk = true := by decide +kernel
+/-- … with the sheets and tables in drawable order, the shared formula rendered per host, the currency display, the merge -/
+example : (dump demoEnv demoDoc).map (fun o => o.map fun s => (s.1, s.2.map (·.1)))
+    = .ok [(some "One".toList, ["T1".toList, "T2".toList]), (some "Two".toList, ["T3".toList])] := by decide +kernel
+structure DemoCell where
+  formula : Option (PyM Text)
+  formatted : PyM Text
+  merge : MergeObs
+  deriving DecidableEq
+structure DemoTab where
+  ranges : List (Int × Int × Int × Int)
+  rows : List (List DemoCell)
+  deriving DecidableEq
+def demoProj (o : Observation) : List DemoTab :=
+  o.flatMap fun s => s.2.flatMap fun t =>
+    match t.2 with
+    | .live _ _ rs rows => [⟨rs, rows.map fun r => r.map fun c => ⟨c.formula, c.formatted, c.merge⟩⟩]
+    | .pivot => []
+def demoExpected : List DemoTab :=
+  [⟨[(0, 0, 0, 1)],
+    [[⟨some (.ok "A1+B1".toList), .ok "€1,234.50".toList, .anchor 1 2⟩, ⟨none, .ok "None".toList, .placeholder 0 0 0 1⟩],
+     [⟨none, .ok "x".toList, .plain⟩, ⟨some (.ok "B2+C2".toList), .ok "1234.5".toList, .plain⟩]]⟩,
+   ⟨[], [[⟨none, .ok "x".toList, .plain⟩], [⟨none, .ok "None".toList, .plain⟩]]⟩,
+   ⟨[], [[⟨none, .ok "2020".toList, .plain⟩, ⟨none, .ok [], .plain⟩]]⟩]
+example : (dump demoEnv demoDoc).map demoProj = .ok demoExpected := by decide +kernel
+/-- … one and two save / open cycles (archives re-read in FILE order, string keys re-assigned, merge map re-packed) show
+    the same -/
+example : resaveDump demoEnv demoDoc = dump demoEnv demoDoc := by decide +kernel
+example : resaveDump2 demoEnv demoDoc = dump demoEnv demoDoc := by decide +kernel
+/-- the reload is not the identity on the state: the store comes back in file order -/
+example : ((saveDoc demoDoc).bind loadDoc).map (fun d => d.tree.objects.map (·.1))
+    = .ok [1, 2, 3, 10, 11, 12, 22, 21, 20] := by decide +kernel
+
+end document
 
 end NumbersModel.Props.C02
